@@ -58,6 +58,36 @@ def scaling_flag_ids(tn):
     return ids
 
 
+def _mask_decision(tn, i, tid):
+    """`((T[alg] >> op) & 1) [!= 0] || m_scaleModulators` or `(T[alg] & (1 << op)) [!= 0] || ...` with alg = fbalg & 7 and op the
+    operator counter: returns (decision has that shape, row selected by fbalg & 7).  Bit k of an entry is operator k in both forms."""
+    sd = single_defs(tn.d)
+    if not (i.get('k') == 'BinaryOperator' and i['op'] == '||' and mentions(i['r'], member_named('m_scaleModulators'))):
+        return False, False
+    l = strip(i['l'])
+    if l.get('k') == 'BinaryOperator' and l.get('op') == '!=' and const_of(l['r']) == 0:
+        l = strip(l['l'])
+    if not (l.get('k') == 'BinaryOperator' and l.get('op') == '&'):
+        return False, False
+    a, b = strip(l['l']), strip(l['r'])
+    sub = sh = None
+    for x, y in ((a, b), (b, a)):
+        # (T[alg] >> op) & 1
+        if x.get('k') == 'BinaryOperator' and x.get('op') == '>>' and const_of(y) == 1 and strip(x['l']).get('k') == 'ArraySubscriptExpr':
+            sub, sh = strip(x['l']), strip(x['r'])
+        # T[alg] & (1 << op)
+        if x.get('k') == 'ArraySubscriptExpr' and y.get('k') == 'BinaryOperator' and y.get('op') == '<<' and const_of(y['l']) == 1:
+            sub, sh = x, strip(y['r'])
+    if sub is None or strip(sub['b']).get('id') != tid:
+        return False, False
+    # the shift count is the operator counter: the variable that also subscripts the level array in the same loop
+    if sh.get('k') != 'DeclRefExpr':
+        return False, False
+    a_ = strip(subst(sub['i'], sd))
+    oka = a_.get('k') == 'BinaryOperator' and a_.get('op') == '&' and 7 in (const_of(a_['l']), const_of(a_['r'])) and mentions(a_, member_named('fbalg'))
+    return True, oka
+
+
 def views(tier):
     return ['V0'] if tier == 'quick' else ['V0', 'noVGM', 'noSEQ']
 
@@ -336,6 +366,21 @@ def analyse(facts, tier):
                     for r in strip(v['init']).get('inits', []):
                         rows.append([const_of(c) for c in strip(r).get('inits', [])])
                     table = (rows, st_['loc'])
+    mask_form = None
+    if table is None:
+        # the same table packed as one bit mask per algorithm: 8 integer entries, bit k <-> operator k when the decision reads
+        # `(T[alg] >> op) & 1` or `T[alg] & (1 << op)` (decoded below; any other use of such a table is not understood)
+        for b_, j_, st_ in tn.cfg.stmts():
+            s = st_['s']
+            if s.get('k') == 'DeclStmt':
+                for v in s['decls']:
+                    i0 = strip(v['init']) if 'init' in v else None
+                    if i0 is not None and i0.get('k') == 'InitListExpr' and len(i0.get('inits', [])) == 8:
+                        vals = [const_of(c) for c in i0['inits']]
+                        if all(isinstance(x_, int) and 0 <= x_ < 16 for x_ in vals):
+                            mask_form = (v['id'], vals, st_['loc'])
+        if mask_form is not None:
+            table = ([[(m_ >> k_) & 1 for k_ in range(4)] for m_ in mask_form[1]], mask_form[2])
     if table is None:
         raise build.AnalysisBroken('C11.R4: alg_do table not found')
     rows, loc = table
@@ -354,6 +399,9 @@ def analyse(facts, tier):
                     i = strip(canon_access(subst(v['init'], single_defs(tn.d)), al_tn))      # `row = T[alg]; *(row + op)` reads as T[alg][op]
                     # <carrier table>[algorithm][operator] || m_scaleModulators: the left operand is a doubly subscripted local table
                     l_ = strip(i['l'])
+                    if mask_form is not None:
+                        okd, oka = _mask_decision(tn, strip(v['init']), mask_form[0])      # unsubstituted: the table stays a name
+                        continue
                     okd = i.get('k') == 'BinaryOperator' and i['op'] == '||' and l_.get('k') == 'ArraySubscriptExpr' and strip(l_.get('b')).get('k') == 'ArraySubscriptExpr' and \
                         mentions(i['r'], member_named('m_scaleModulators'))
                     if okd:
